@@ -17,6 +17,8 @@ def bits_close(a, b, ulps=0, rel=0.0, absol=0.0):
     d = ulp_diff(a, b)
     if d <= ulps:
         return True
+    if rel == 0.0 and absol == 0.0:
+        return False
     fa, fb = b2f(a), b2f(b)
     if math.isnan(fa) or math.isnan(fb) or math.isinf(fa) or math.isinf(fb):
         return False
